@@ -745,7 +745,7 @@ def setup(ctx):
 
 
 def plan(tier, seed, n):
-    per, nops = (150, 25) if tier == 'quick' else (2500, 40)
+    per, nops = (300, 25) if tier == 'quick' else (6000, 40)
     return [{'n': per, 'nops': nops} for _ in range(n)]
 
 
